@@ -161,7 +161,7 @@ def default_sentence_forms(v, typ=None):
     """the text that follows 'Defaults to ' for value v: strings are quoted exactly when the declared type
     mentions `str` (what doctrans itself writes)"""
     if isinstance(v, str):
-        return ['"%s"' % v] if (typ and "str" in typ) else [v]
+        return ['"%s"' % v] if (typ and ("str" in typ or "'" in typ or '"' in typ)) else [v]
     return [str(v)]
 
 
